@@ -10,7 +10,7 @@ uses::
 It accepts EXACTLY the subset the specification gives a meaning to and raises ``OutsideSubset(reason)`` for
 anything else (keyword arguments, attribute/subscript targets, comprehensions, strings, unknown calls ...):
   statements   docstring / pass (dropped), import / from-import inside the body (resolved, dropped),
-               x = e, x1 = x2 = e, x op= e, return e, if/elif/else, while, for x in range(<int literal>)
+               x = e, x: T = e, x: T, x1 = x2 = e, x op= e, return e, if/elif/else, while, for x in range(<int literal>)
   expressions  int / float literals (decimal value as exact rational), names (locals, module-level numbers,
                imported numbers), + - * / ** // %, unary - +, not, and/or, comparisons incl. chains, conditional
                expression, abs/min/max, calls of plain Python functions reachable through the module's globals or
@@ -235,6 +235,11 @@ class _Enc:
                     out.append({"k": "assign", "name": s.targets[0].id, "e": self.expr(s.value)})
                 else:
                     out.append({"k": "chain", "names": [t.id for t in s.targets], "e": self.expr(s.value)})
+            elif isinstance(s, ast.AnnAssign):
+                if not isinstance(s.target, ast.Name) or not s.simple:
+                    raise OutsideSubset("annotated assignment target")
+                if s.value is not None:     # without a value nothing is bound (the name is still a local)
+                    out.append({"k": "assign", "name": s.target.id, "e": self.expr(s.value), "ann": True})
             elif isinstance(s, ast.AugAssign):
                 if not isinstance(s.target, ast.Name) or type(s.op) not in BINOPS:
                     raise OutsideSubset("augmented assignment")
